@@ -17,12 +17,14 @@ type v =
   | Lp | Ll of int | Mi of Z.t | Ma of Z.t | Rl of int | Ty of Z.t
   | St of int | Ss of Z.t | Ls of int | Str of int list
   | K of int * Z.t | Fi of int option
+  | Xr of int * int * int                  (* expression with one reference op: kind, unit, entry (oracle streams only) *)
 
 type op =
   | U of enc * (enc * int) option
   | S of int list | L of int list
   | R of int * Z.t * (Z.t * Z.t) list
   | O of int * Z.t * (Z.t * Z.t * int list) list
+  | P of int * Z.t * (Z.t * Z.t * (int * int * int)) list   (* location list of reference expressions (oracle streams only) *)
   | E of int * int * int                   (* unit, parent, tag *)
   | Rsv of int
   | A of int * int * int * int             (* unit, child, parent, tag *)
@@ -54,6 +56,7 @@ let s_val = function
   | Str b -> "str " ^ hex_of_ints b
   | K (k, x) -> Printf.sprintf "k %d %s" k (sz x)
   | Fi None -> "fi -1" | Fi (Some k) -> "fi " ^ si k
+  | Xr (k, u, i) -> Printf.sprintf "xr %d %d %d" k u i
 
 let s_op = function
   | U (e, None) -> Printf.sprintf "U %s 0" (s_enc e)
@@ -66,6 +69,9 @@ let s_op = function
   | O (u, a, ps) ->
       Printf.sprintf "O %d %s %d%s" u (sz a) (List.length ps)
         (String.concat "" (List.map (fun (b, e, x) -> " " ^ sz b ^ " " ^ sz e ^ " " ^ hex_of_ints x) ps))
+  | P (u, a, ps) ->
+      Printf.sprintf "P %d %s %d%s" u (sz a) (List.length ps)
+        (String.concat "" (List.map (fun (b, e, (k, tu, i)) -> Printf.sprintf " %s %s %d %d %d" (sz b) (sz e) k tu i) ps))
   | E (u, p, t) -> Printf.sprintf "e %d %d %d" u p t
   | Rsv u -> "r " ^ si u
   | A (u, c, p, t) -> Printf.sprintf "a %d %d %d %d" u c p t
@@ -247,6 +253,7 @@ let eval (dbg : bool) (be : bool) (ops : op list) : string =
          | 9 -> UnitWr.AvCallingConvention x | 10 -> UnitWr.AvInline x | _ -> UnitWr.AvOrdering x)
     | Fi None -> UnitWr.AvFileIndex None
     | Fi (Some k) -> UnitWr.AvFileIndex (Some (ni k))
+    | Xr _ -> raise (Stop "bad-script_oracle-only-value")   (* expressions holding references are opaque to the model *)
   in
   let do_write () =
     (* opaque collaborators of the units written by this call, in write order *)
@@ -303,6 +310,7 @@ let eval (dbg : bool) (be : bool) (ops : op list) : string =
             | Some i -> i
             | None -> us.locs <- us.locs @ [(a, ps)]; List.length us.locs - 1 in
           us.loc_calls <- us.loc_calls @ [id]
+      | P _ -> raise (Stop "bad-script_oracle-only-op")
       | E (u, p, t) ->
           let us = unit u in
           let (_, w) = get_ok (UnitWr.unit_add dbg us.wu (nat_of_int p) (n_of_int t)) in us.wu <- w
@@ -664,6 +672,189 @@ let gen_wide r ~(mode : int) : op list =
   end;
   List.rev !ops
 
+(* abbreviation key: groups of DIEs whose abbreviation keys (tag, children flag, sibling, attribute names and
+   forms IN ORDER, implicit_const payload) are equal or differ in exactly one component.  The abbreviation table
+   must merge exactly the equal ones; in particular two DIEs that differ only in a DW_FORM_implicit_const value
+   need two abbreviations (the value lives in the abbreviation), equal values must share one. *)
+let ic_bounds = Array.map Z.of_string
+  [| "0"; "1"; "-1"; "63"; "64"; "-64"; "-65"; "127"; "128"; "-128"; "-129"; "8191"; "8192"; "-8192"; "-8193";
+     "2147483647"; "2147483648"; "-2147483648"; "-2147483649"; "4294967295"; "4294967296";
+     "9223372036854775807"; "9223372036854775806"; "-9223372036854775808"; "-9223372036854775807";
+     "4611686018427387904"; "-4611686018427387905" |]
+
+let gen_abbrevkey r ~(mode : int) : op list =
+  let ops = ref [] in
+  let push o = ops := o :: !ops in
+  let nunits = if mode = 2 then 1 else 1 + rand_int r 2 in
+  for u = 0 to nunits - 1 do
+    if u > 0 && mode = 1 && rand_bool r then push W;
+    let v = if rand_int r 4 = 0 then pick r [| 2; 3; 4 |] else 5 in
+    push (U ((v, rand_bool r, pick r [| 4; 8 |]), None));
+    if u = 0 then (push (S [0x6b; 0x65; 0x79]); push (S [0x6b]));
+    let next = ref 1 in
+    let add parent tag = let id = !next in push (E (u, parent, tag)); incr next; id in
+    let target = add 0 0x24 in
+    let parent = if rand_int r 3 = 0 then add 0 0x13 else 0 in
+    (* attribute slots: (name pool, class) with disjoint name pools *)
+    let slots = [| ([| 0x1c; 0x3a05; 0x3a06 |], `C); ([| 0x3a05; 0x1c; 0x3a06 |], `C); ([| 0x3a06; 0x3a05; 0x1c |], `C);
+                   ([| 0x3a03; 0x3a04 |], `D); ([| 0x0b |], `U); ([| 0x3f; 0x3c; 0x3a07 |], `F);
+                   ([| 0x03; 0x6e |], `S); ([| 0x49; 0x31 |], `R) |] in
+    let value cls alt = match cls with
+      | `C -> if alt then Sd (pick r ic_bounds) else Ic (pick r ic_bounds)
+      | `D -> if alt then D2 (rand_int r 65536) else D1 (rand_int r 256)
+      | `U -> Ud (Z.of_int (rand_int r 300))
+      | `F -> if alt then Fl true else Fp
+      | `S -> if alt then St (rand_int r 2) else Str [0x61 + rand_int r 26]
+      | `R -> if alt && mode <> 2 then Ir (u, u, target) else Ur (u, target) in
+    for _ = 1 to 1 + rand_int r 2 do
+      let tag = pick r [| 0x34; 0x0d; 0x28; 0x05; 0x2e; 0x24 |] in
+      (* base shape: 1..5 slots in random order, names distinct, an implicit constant nearly always *)
+      let nattr = 1 + rand_int r 5 in
+      let chosen = ref [] in
+      let force_ic = rand_int r 8 <> 0 in
+      while List.length !chosen < nattr do
+        let k = if force_ic && !chosen = [] then 0 else rand_int r (Array.length slots) in
+        let (names, cls) = slots.(k) in
+        let nm = names.(0) in
+        if not (List.exists (fun (n, _, _) -> n = nm) !chosen) then
+          chosen := (nm, cls, value cls (cls <> `C && rand_int r 4 = 0)) :: !chosen
+      done;
+      let base = !chosen in   (* (name, class, value) in set order *)
+      let used n l = List.exists (fun (m, _, _) -> m = n) l in
+      let emit ?(tag = tag) ?(child = false) ?(sib = false) attrs =
+        let id = add parent tag in
+        List.iter (fun (n, _, x) -> push (Set (u, id, n, x))) attrs;
+        if child then ignore (add id 0x0d);
+        if sib then push (Sib (u, id, true)) in
+      let change_ic attrs =
+        (* another payload for one implicit constant (or another value of the same form if there is none) *)
+        let idx = List.filter (fun i -> match List.nth attrs i with (_, _, Ic _) -> true | _ -> false)
+                    (List.init (List.length attrs) (fun i -> i)) in
+        let i = match idx with [] -> rand_int r (List.length attrs) | l -> List.nth l (rand_int r (List.length l)) in
+        List.mapi (fun j (n, c, x) ->
+          if j <> i then (n, c, x) else
+            match x with
+            | Ic z -> let z' = pick r ic_bounds in (n, c, Ic (if Z.equal z z' then Z.succ (Z.rem z (Z.of_int 1000)) else z'))
+            | Sd _ -> (n, c, Sd (pick r ic_bounds)) | D1 y -> (n, c, D1 ((y + 1) mod 256)) | D2 y -> (n, c, D2 ((y + 1) mod 65536))
+            | Ud y -> (n, c, Ud (Z.succ y)) | Str b -> (n, c, Str (0x41 :: b)) | St k -> (n, c, St (1 - k))
+            | y -> (n, c, y)) attrs in
+      (* the three that must always be there: base, same shape with another constant, exact duplicate of base *)
+      emit base; emit (change_ic base); emit base;
+      for _ = 1 to 2 + rand_int r 6 do
+        match rand_int r 12 with
+        | 0 -> emit base
+        | 1 | 2 -> emit (change_ic base)
+        | 3 -> emit ~tag:(if tag = 0x34 then 0x0d else 0x34) base
+        | 4 -> emit ~child:true base
+        | 5 -> emit ~child:true ~sib:true base
+        | 6 -> (* attribute order *)
+            (match base with a :: rest when rest <> [] -> emit (rest @ [a]) | _ -> emit (List.rev base))
+        | 7 -> (* one name changed (same class, unused name) *)
+            let i = rand_int r (List.length base) in
+            emit (List.mapi (fun j (n, c, x) ->
+              if j <> i then (n, c, x) else
+                let pool = Array.to_list (fst (List.find (fun (_, c') -> c' = c) (Array.to_list slots))) in
+                match List.filter (fun m -> not (used m base)) pool with
+                | m :: _ -> (m, c, x) | [] -> (n, c, x)) base)
+        | 8 -> (* one form changed (data1/data2, implicit_const/sdata, flag_present/flag, string/strp, ref4/ref_addr) *)
+            let i = rand_int r (List.length base) in
+            emit (List.mapi (fun j (n, c, x) ->
+              if j <> i then (n, c, x) else
+                match x with
+                | Ic z -> (n, c, Sd z) | Sd z -> (n, c, Ic z) | D1 y -> (n, c, D2 y) | D2 y -> (n, c, D1 (y land 255))
+                | Fp -> (n, c, Fl true) | Fl _ -> (n, c, Fp) | Str _ -> (n, c, St 0) | St _ -> (n, c, Str [0x6b])
+                | Ur (a, b) when mode <> 2 -> (n, c, Ir (a, a, b)) | Ir (a, _, b) -> (n, c, Ur (a, b)) | y -> (n, c, y)) base)
+        | 9 -> (* one attribute fewer / more *)
+            if List.length base > 1 && rand_bool r then emit (List.tl base)
+            else begin
+              let free = List.filter (fun (names, _) -> not (used names.(0) base)) (Array.to_list slots) in
+              match free with
+              | (names, cls) :: _ -> emit (base @ [ (names.(0), cls, value cls false) ])
+              | [] -> emit base
+            end
+        | 10 -> (* every implicit constant replaced by the same boundary value: equal again among themselves *)
+            let z = pick r ic_bounds in
+            let l = List.map (fun (n, c, x) -> match x with Ic _ -> (n, c, Ic z) | y -> (n, c, y)) base in
+            emit l; emit l
+        | _ -> emit ~child:true (change_ic base)
+      done
+    done;
+    if rand_bool r then push (Sib (u, 0, true))
+  done;
+  List.rev !ops
+
+(* c11.conv: scripts restricted to what write::Dwarf::convert carries over unchanged, rich in references that
+   are resolved by the deferred .debug_info fix-ups (DW_FORM_ref_addr attributes, DW_OP_call_ref /
+   DW_OP_implicit_pointer / DW_OP_GNU_variable_value in exprlocs and in location lists), between units in both
+   directions.  Returns (mask, ops): unit k is written at once by ConvertUnit::write iff bit k of mask is set. *)
+let gen_conv r : int * op list =
+  let nunits = match rand_int r 8 with 0 -> 1 | 1 | 2 | 3 -> 2 | 4 | 5 -> 3 | 6 -> 4 | _ -> 5 in
+  let ops = ref [] in
+  let push o = ops := o :: !ops in
+  let encs = Array.init nunits (fun _ -> (pick r [| 2; 3; 4; 5 |], rand_bool r, pick r [| 4; 8 |])) in
+  Array.iter (fun e -> push (U (e, None))) encs;
+  let pool = [| [0x61]; [0x62; 0x63]; []; [0x7a; 0x7a; 0x7a]; [0x6d; 0x61; 0x69; 0x6e] |] in
+  let nstr = 1 + rand_int r 4 in
+  for _ = 1 to nstr do push (S (pick r pool)) done;
+  let nlstr = rand_int r 2 in
+  for _ = 1 to nlstr do push (L (pick r pool)) done;
+  (* structure first: every id exists before anything refers to it *)
+  let nent = Array.init nunits (fun _ -> 2 + rand_int r 6) in   (* ids 0..nent-1 *)
+  for u = 0 to nunits - 1 do
+    for i = 1 to nent.(u) - 1 do
+      let p = if rand_int r 3 = 0 then rand_int r i else 0 in
+      push (E (u, p, pick r tags))
+    done
+  done;
+  let any_target () = let u = rand_int r nunits in (u, rand_int r nent.(u)) in
+  let other_target u =
+    if nunits = 1 then (u, rand_int r nent.(u)) else
+      let t = (u + 1 + rand_int r (nunits - 1)) mod nunits in (t, rand_int r nent.(t)) in
+  let nrng = Array.make nunits 0 and nloc = Array.make nunits 0 in
+  for u = 0 to nunits - 1 do
+    let mk_pairs k = List.init k (fun _ -> let b = rand_int r 5000 in (Z.of_int b, Z.of_int (b + 1 + rand_int r 5000))) in
+    for _ = 1 to rand_int r 3 do
+      push (R (u, Z.of_int (rand_int r 5000), mk_pairs (1 + rand_int r 3))); nrng.(u) <- nrng.(u) + 1
+    done;
+    for _ = 1 to rand_int r 3 do
+      if rand_bool r then
+        push (O (u, Z.of_int (rand_int r 5000), List.map (fun (b, e) -> (b, e, pick r exprs)) (mk_pairs (1 + rand_int r 3))))
+      else
+        push (P (u, Z.of_int (rand_int r 5000),
+                 List.map (fun (b, e) ->
+                   let (tu, i) = if rand_int r 3 = 0 then any_target () else other_target u in
+                   (b, e, (rand_int r 3, tu, i))) (mk_pairs (1 + rand_int r 3))));
+      nloc.(u) <- nloc.(u) + 1
+    done
+  done;
+  let (_ : int) = nlstr in
+  for u = 0 to nunits - 1 do
+    let (_, fmt64, asz) = encs.(u) in
+    let c = { nstr; nlstr; nrng = nrng.(u); nloc = nloc.(u); nfiles = 0;
+              targets = List.concat (List.init nunits (fun t -> List.init nent.(t) (fun i -> (t, i))));
+              here = u; asz; fmt64; has_lp = false } in
+    for e = 0 to nent.(u) - 1 do
+      for _ = 1 to rand_int r 4 do
+        match rand_int r 16 with
+        | 0 | 1 | 2 -> let (tu, i) = other_target u in push (Set (u, e, pick r [| 0x49; 0x31; 0x18 |], Ir (tu, tu, i)))
+        | 3 | 4 -> let (tu, i) = other_target u in push (Set (u, e, pick r [| 0x02; 0x40 |], Xr (rand_int r 3, tu, i)))
+        | 5 -> let (tu, i) = any_target () in push (Set (u, e, pick r [| 0x02; 0x40 |], Xr (rand_int r 3, tu, i)))
+        | 6 | 7 -> if nloc.(u) > 0 then push (Set (u, e, pick r [| 0x02; 0x40 |], Ll (rand_int r nloc.(u))))
+        | 8 -> if nrng.(u) > 0 then push (Set (u, e, 0x55, Rl (rand_int r nrng.(u))))
+        | _ ->
+            (* kinds the converter carries over unchanged *)
+            let k = pick r [| 0; 2; 3; 4; 5; 6; 8; 9; 10; 11; 12; 13; 14; 15; 24; 27; 28; 29; 31; 34; 36 |] in
+            (match gen_value ~safe:true r c k with
+             | Some x -> push (Set (u, e, names_for r k, x))
+             | None -> ())
+      done;
+      if e > 0 && rand_int r 4 = 0 then push (Sib (u, e, true))
+    done
+  done;
+  let all = (1 lsl nunits) - 1 in
+  let mask = match rand_int r 6 with 0 | 1 | 2 -> all | 3 -> 0 | _ -> rand_int r (all + 1) in
+  (mask, List.rev !ops)
+
 (* boundary sizes: a few big cases (ignore n except the huge one) *)
 let sized_cases r ~(n : int) : (bool * int * op list) list =
   let e4 = (4, false, 8) and e5 = (5, true, 4) in
@@ -743,6 +934,8 @@ let () =
       List.iter (fun (be, mode, ops) -> case be mode ops) (sized_cases r ~n);
       (* wide roots, fixed share *)
       for _ = 1 to 64 do let mode = pick r [| 0; 0; 1; 2 |] in case (rand_bool r) mode (gen_wide r ~mode) done;
+      (* abbreviation keys, fixed share *)
+      for _ = 1 to 150 do let mode = pick r [| 0; 0; 1; 2 |] in case (rand_bool r) mode (gen_abbrevkey r ~mode) done;
       (* odd encodings *)
       for k = 0 to kinds - 1 do
         List.iter (fun e -> match directed r k e with Some ops -> case false 0 ops | None -> ())
@@ -751,7 +944,10 @@ let () =
       for _ = 1 to n do
         let mode = match rand_int r 10 with 0 | 1 | 2 -> 1 | 3 -> 2 | _ -> 0 in
         let be = rand_bool r in
-        let ops = if rand_int r 10 = 0 then gen_wide r ~mode else gen_script r ~multi_lp:false ~mode in
+        let ops = match rand_int r 20 with
+          | 0 | 1 -> gen_wide r ~mode
+          | 2 | 3 -> gen_abbrevkey r ~mode
+          | _ -> gen_script r ~multi_lp:false ~mode in
         case be mode ops
       done);
   register "c11.sem" ~doc:"API scripts with several line programs: semantic read-back oracle only (dump predicted from the script = dump of the written sections)"
@@ -761,8 +957,20 @@ let () =
       for _ = 1 to n do
         let mode = match rand_int r 10 with 0 | 1 | 2 -> 1 | 3 -> 2 | _ -> 0 in
         let be = rand_bool r in
-        let ops = if rand_int r 10 = 0 then gen_wide r ~mode else gen_script r ~multi_lp:true ~mode in
+        let ops = match rand_int r 20 with
+          | 0 | 1 -> gen_wide r ~mode
+          | 2 | 3 -> gen_abbrevkey r ~mode
+          | _ -> gen_script r ~multi_lp:true ~mode in
         emit (Printf.sprintf "c11.sem %s %d %s" (sb be) mode (s_script ops)) "ok" "ok"
+      done);
+  register "c11.conv" ~doc:"scripts written, read back and converted unit by unit; unit k is written at once through ConvertUnit::write iff bit k of the mask is set (all / none / mixed), the rest by the final Dwarf::write: every ref_addr attribute and every reference inside exprlocs and location lists must still hit its DIE (semantic oracle after both stages)"
+    (fun ~seed ~n emit ->
+      counter := 0;
+      let r = mk_rng (seed + 15485863) in
+      for _ = 1 to n do
+        let be = rand_bool r in
+        let (mask, ops) = gen_conv r in
+        emit (Printf.sprintf "c11.conv %s %d %s" (sb be) mask (s_script ops)) "ok" "ok"
       done);
   register "c11.misuse" ~doc:"references that cannot be encoded (an id that was reserved but never added and lies beyond the entries vector — Err since c42c00d; an entry id issued by another unit — known finding): the property demands Err"
     (fun ~seed ~n emit ->
